@@ -114,7 +114,7 @@ def chain : List (Except ε (List β)) → List β × Option ε
 /-! ## `ProcessPoolExecutor.map` -/
 
 /-- what a caller of `executor.map(fn, *iterables, chunksize=c)` observes -/
-inductive MapResult (ε β : Type)
+inductive MapResult (ε : Type u) (β : Type v)
   | valueError                                       -- raised by the call itself
   | result (yielded : List β) (raised : Option ε)    -- items of the iterator, then exhaustion or an exception
 deriving Repr, DecidableEq
